@@ -12,7 +12,7 @@ pub mod common;
 #[cfg(kani)]
 mod c15;
 #[cfg(kani)]
-mod c16;
+pub mod c16;
 #[cfg(kani)]
 mod c20;
 #[cfg(kani)]
